@@ -118,7 +118,11 @@ func c35YAML(restricted bool, dir string) (string, map[string]int) {
 
 	b := &strings.Builder{}
 	w := func(format string, a ...any) { fmt.Fprintf(b, format+"\n", a...) }
-	w("logLevel: error")
+	if lv := os.Getenv("C35_LOGLEVEL"); lv != "" { // debugging aid
+		w("logLevel: %s", lv)
+	} else {
+		w("logLevel: error")
+	}
 	w("logDestinations: [file]")
 	w("logFile: %s/mediamtx.log", dir)
 	w("readTimeout: 10s")
@@ -247,6 +251,11 @@ func (s *c35Srv) confFingerprint() string {
 }
 
 func (s *c35Srv) stop() {
+	if keep := os.Getenv("C35_KEEPLOG"); keep != "" { // debugging aid
+		if b, err := os.ReadFile(filepath.Join(s.Dir2, "mediamtx.log")); err == nil {
+			os.WriteFile(keep, b, 0o644) //nolint:errcheck
+		}
+	}
 	s.Stop()
 	if s.Dir2 != "" {
 		os.RemoveAll(s.Dir2)
@@ -675,6 +684,12 @@ func (s *c35Srv) sendSRTDial(in *c35Input) (res c35Result) {
 	return res
 }
 
+// c35SafeClose: webtransport.Transport.Close dereferences a context that only exists after a Dial got past URL parsing.
+func c35SafeClose(d *webtransport.Transport) {
+	defer func() { recover() }() //nolint:errcheck
+	d.Close()                    //nolint:errcheck
+}
+
 type c35QStream interface {
 	io.Writer
 	Close() error
@@ -716,7 +731,7 @@ func (s *c35Srv) sendMoQ(in *c35Input) (res c35Result) {
 			QUICConfig:           qconf,
 			ApplicationProtocols: []string{sc.Version},
 		}
-		defer d.Close() //nolint:errcheck
+		defer c35SafeClose(d)
 		u := "https://" + s.addr("moqhttp3") + "/" + in.WTPath
 		if _, err := url.Parse(u); err != nil {
 			res.Err = "harness: url not expressible by the client: " + err.Error()
@@ -988,7 +1003,7 @@ func (s *c35Srv) canaryOnce(name string) (ok bool, hard bool, why string) {
 			QUICConfig:           &quic.Config{EnableDatagrams: true, EnableStreamResetPartialDelivery: true},
 			ApplicationProtocols: []string{"moqt-19"},
 		}
-		defer d.Close() //nolint:errcheck
+		defer c35SafeClose(d)
 		rsp, sx, err := d.Dial(ctx, "https://"+s.addr("moqhttp3")+"/live", nil)
 		if err != nil {
 			if rsp != nil { // an HTTP status (e.g. 401 on the restricted server) is an answer
